@@ -58,6 +58,7 @@ def enum_terms(n, classic, texts, memo=None, hang=True, ann=True):
             if not classic:
                 if ann:
                     r.append(('ann', 7, d))
+                    r.append(('ann', 0, d))      # a falsy annotation value is an annotation, too
                 if hang:
                     r.append(('hang', 2, d))
             # a concat with a single member (normalisation unwraps it; a forced break must survive)
@@ -140,7 +141,7 @@ def random_term(rng, size, classic, texts=TEXTS_FULL, depth=0):
     if k == 'hang':
         return ('hang', rng.choice([1, 2]), random_term(rng, size - 1, classic, texts, depth + 1))
     if k == 'ann':
-        return ('ann', rng.choice([7, 8]), random_term(rng, size - 1, classic, texts, depth + 1))
+        return ('ann', rng.choice([7, 8, 0, None, '']), random_term(rng, size - 1, classic, texts, depth + 1))
     if k == 'cat':
         arity = rng.randint(2, min(5, max(2, size - 1)))
         sizes = split_size(rng, size - 1, arity)
@@ -248,7 +249,7 @@ def table(t):
             return add(_nd('align', c=[n]))
         if k == 'ann':
             c = go(t[2])
-            return add(_nd('ann', a=t[1], c=[c]))
+            return add(_nd('ann', a=ann_id(t[1]), c=[c]))
         if k in ('cat', 'fc', 'fill'):
             cs = [go(x) for x in t[1:]]
             return add(_nd(k, c=cs))
@@ -277,7 +278,7 @@ def termjson(t):
     if k == 'hang':
         return ['align', ['nest', t[1], termjson(t[2])]]
     if k == 'ann':
-        return ['ann', t[1], termjson(t[2])]
+        return ['ann', ann_id(t[1]), termjson(t[2])]
     if k in ('cat', 'fill'):
         return [k, [termjson(x) for x in t[1:]]]
     if k == 'fc':
@@ -306,7 +307,13 @@ _ANN = {}
 
 
 def ann_id(v):
-    if isinstance(v, int) and not isinstance(v, bool) and 0 < int(v) < 1000:
+    if v is None:
+        return 998
+    if v == '' and isinstance(v, str):
+        return 997
+    if isinstance(v, int) and not isinstance(v, bool) and v == 0:
+        return 999
+    if isinstance(v, int) and not isinstance(v, bool) and 0 < int(v) < 990:
         return int(v)
     key = id(v) if not isinstance(v, (str, int)) else v
     return _ANN.setdefault(key, 1000 + len(_ANN))
